@@ -225,9 +225,12 @@ def run(report, p):
     for uc in ucs:
         for f, v in prov(p).field_stores(uc, "latest_version"):
             ok = (isinstance(v, ast.Constant) and v.value is None) or (isinstance(v, ast.Call) and norm(v.func).endswith("version.parse"))
-            if not ok and isinstance(v, ast.Name):
-                # a local that holds the parsed version
-                os_ = prov(p).origins(v, f)
+            if not ok and isinstance(v, (ast.Name, ast.Call)):
+                # a local that holds the parsed version / a helper of the package that returns it
+                from .common import alts as _alts
+
+                pr_ = prov(p)
+                os_ = [a for o in pr_.origins(v, f) for a in _alts(pr_.inline(o, depth=2))]
                 ok = bool(os_) and all((o[0] == "const" and o[1] is None) or (o[0] == "call" and o[1].endswith("version.parse")) for o in os_)
             r4.instance(f, v, f"latest_version = {norm(v)}")
             r4.check(ok, f, v, "latest_version is assigned something other than None or version.parse(...)", construct=f"latest_version = {norm(v)}")
@@ -403,6 +406,83 @@ def run(report, p):
                     if is_sync and not (n.args or any(k.arg == "timeout" for k in n.keywords)):
                         r9.check(False, m, n, f"`{m.name}` (main thread) waits on `{norm(n.func.value)}` without a timeout: a server that never answers blocks the command for ever", construct=f"unbounded {n.func.attr}() on the main thread")
         r9.check(True, c.methods.get("run") or list(c.methods.values())[0], p.classes[uc].node, "")
+
+    # ------------------------------------------------------------------ R20.10
+    r10 = report.rule(
+        "R20.10",
+        "nothing the checker thread does with the server's answer can run for an unbounded time while holding the interpreter lock: regular expressions applied in code reachable from "
+        "run() have no nested unbounded repetition whose inner repeat can split a run of characters in several ways (`(?:[a-z]+[-_/]?)*`): on a long non-matching tag such a pattern "
+        "backtracks exponentially inside one C call, the GIL is never released, and join(timeout=1) on the main thread cannot even start to time out",
+        1,
+    )
+    try:
+        import re._parser as _sre
+    except Exception:  # pragma: no cover
+        import sre_parse as _sre
+
+    def _nullable(item):
+        op, av = str(item[0]), item[1]
+        if op in ("MAX_REPEAT", "MIN_REPEAT"):
+            return av[0] == 0 or all(_nullable(x) for x in av[2])
+        if op == "SUBPATTERN":
+            return all(_nullable(x) for x in av[3])
+        if op == "BRANCH":
+            return any(all(_nullable(x) for x in b) for b in av[1])
+        if op in ("AT", "ASSERT", "ASSERT_NOT", "GROUPREF_EXISTS"):
+            return True
+        return False
+
+    def _ambiguous(items):
+        """an unbounded repeat whose body is `<unbounded repeat> <only optional things>` (possibly behind groups)"""
+        for op, av in items:
+            opn = str(op)
+            if opn in ("MAX_REPEAT", "MIN_REPEAT"):
+                lo, hi, body = av
+                body = list(body)
+                flat = body
+                while len(flat) == 1 and str(flat[0][0]) == "SUBPATTERN":
+                    flat = list(flat[0][1][3])
+                if str(hi) == "MAXREPEAT":
+                    for i, (iop, iav) in enumerate(flat):
+                        if str(iop) in ("MAX_REPEAT", "MIN_REPEAT") and str(iav[1]) == "MAXREPEAT" and all(_nullable(x) for x in flat[:i]) and all(_nullable(x) for x in flat[i + 1:]):
+                            return True
+                if _ambiguous(body):
+                    return True
+            elif opn == "SUBPATTERN":
+                if _ambiguous(list(av[3])):
+                    return True
+            elif opn == "BRANCH":
+                if any(_ambiguous(list(b)) for b in av[1]):
+                    return True
+        return False
+
+    for uc in ucs:
+        c = p.classes[uc]
+        if "run" not in c.methods:
+            continue
+        tside = [p.funcs[q] for q in p.reachable([c.methods["run"].qual]) if q in p.funcs]
+        r10.instance(c.methods["run"], c.methods["run"].node, f"{len(tside)} function(s) on the thread side")
+        pats = []
+        for f in tside:
+            for n in walk_no_nested(f.node):
+                if isinstance(n, ast.Call) and norm(n.func).startswith("re.") and n.args:
+                    pats.append((f, n, p.fold(n.args[0], f)))
+                if isinstance(n, ast.Call) and isinstance(n.func, ast.Attribute) and n.func.attr in ("match", "search", "fullmatch", "sub", "findall", "finditer", "split") and isinstance(n.func.value, ast.Name):
+                    # a module-level compiled pattern
+                    mod = f.module
+                    for st in mod.tree.body:
+                        if isinstance(st, ast.Assign) and any(isinstance(t, ast.Name) and t.id == n.func.value.id for t in st.targets) and isinstance(st.value, ast.Call) and norm(st.value.func) == "re.compile" and st.value.args:
+                            pats.append((f, n, p.fold(st.value.args[0], None, mod)))
+        for f, n, pat in pats:
+            r10.instance(f, n, f"pattern {pat!r}"[:80])
+            if not isinstance(pat, str):
+                raise AnalysisError(f"{f.loc(n)}: a regular expression that is not a constant is applied on the checker thread")
+            try:
+                tree = _sre.parse(pat)
+            except Exception as e:
+                raise AnalysisError(f"{f.loc(n)}: pattern {pat!r} does not compile: {e}")
+            r10.check(not _ambiguous(list(tree)), f, n, f"the pattern {pat!r} repeats, without bound, a group that itself starts with an unbounded repeat and can end there (everything after it is optional): a run of n matching characters can be split in 2^n ways, all of which are tried when the match fails at the end - a long tag name from the server freezes the whole process (the regex engine holds the GIL)", construct=f"catastrophic backtracking pattern on the checker thread")
+    r10.check(True, None, None, "")
 
     report.not_decided += [
         "thread interleavings as such (the rules make the main thread's contact with the checker a single bounded join followed by reads)",
